@@ -130,6 +130,12 @@ def check_step_loop(ctx):
 def check(ctx):
     F = ctx.F
     check_step_loop(ctx)
+    acc = ctx.fn("push::push_vm::push_state::PushState::max_instruction_steps")
+    ps = return_paths(ctx.paths(acc))
+    r = peel(ps[0].ret, ()) if len(ps) == 1 else ("unknown",)
+    ctx.check(r[0] == "field" and r[2] == "max_instruction_steps" and peel(r[1], ()) == ("param", 1) and not ps[0].calls() and not [e for e in ps[0].events if e[0] == "assert"],
+              "R03.1", "max_instruction_steps()-returns-the-configured-limit", short(ps[0].ret) if ps else "-", acc.at(),
+              bad_detail="the limit the loop compares against must be exactly the configured field; extracted " + (short(ps[0].ret, 5) if ps else "-"))
     # ---- R03.2 (C04 rules, filed here) ---------------------------------------------
     sub = _Refile(ctx, {"R04.1": "R03.2", "R04.2": "R03.2"})
     rules_c04.check(sub)
